@@ -37,3 +37,5 @@ for name in seeds:
     print(name, {c: ("DETECTED" if r["exit"] == 1 else "missed") for c, r in res.items()})
 rc, out = sh("git -C /repo status --short")
 assert not out.strip(), out
+# the harness binary still contains the last seeded change: rebuild it from the restored tree
+sh("CARGO_NET_OFFLINE=true cargo build --profile checked --offline", cwd=os.path.join(ROOT, "harness"))
